@@ -45,7 +45,7 @@ def wide_fifo_layouts(ctx, pid="C15"):
     P = lambda n: next((x for ex in fn.exs for f in ex.facts for v in (getattr(f, "value", None),) if v is not None for x in subterms(v) if x[0] == "p" and x[-1] == n), None)  # noqa: E731
     rw, ww = P("read_width"), P("write_width")
     if rw is None:
-        raise AnalysisError(pid, fn.site, "WideFifo.__init__: read_width parameter not used")
+        raise AnalysisError(pid, fn.site, "WideFifo.__init__: read_width parameter not used", missing="WideFifo.__init__: read_width parameter not used")
     n = 0
     for ex in fn.exs:
         ww_none = None
